@@ -644,6 +644,44 @@ Section Envelope.
                   end) steps.
 End Envelope.
 
+(* utils.serializer.serialize_obj on a callable: by value (dill.dumps(obj)); if that raises
+   -- whatever it raises -- by reference (dill.dumps(obj, byref=True)); if that raises too,
+   SerializationError.  None = the attempt raises. *)
+Section Serialize.
+  Variables func blob wire : Type.
+  Variable dumps_val : func -> option blob.
+  Variable dumps_ref : func -> option blob.
+  Variable loads     : blob -> option func.              (* deserialize_obj *)
+  Variable ser_bson   : envelope blob -> wire.
+  Variable deser_bson : wire -> option (envelope blob).
+
+  Definition serialize_obj (f : func) : perr + blob :=
+    match dumps_val f with
+    | Some b => inr b
+    | None => match dumps_ref f with
+              | Some b => inr b
+              | None => inl SerError
+              end
+    end.
+
+  (* PythonTask.__new__ / the decorated function with this serialize_obj *)
+  Definition python_task_s (callable : bool) (f : func) (args : list atom) (kw : option kwargs)
+    : perr + wire :=
+    if callable
+    then match serialize_obj f with
+         | inl e => inl e
+         | inr b => inr (ser_bson (mkEnv blob b args
+                                         (match kw with Some (x :: l) => Some (x :: l) | _ => Some [] end)))
+         end
+    else inl ValueError.
+
+  Definition transport_s (callable : bool) (f : func) (args : list atom) (kw : option kwargs) :=
+    match python_task_s callable f args kw with
+    | inl e => inl e
+    | inr w => get_func_attr func blob wire loads deser_bson w
+    end.
+End Serialize.
+
 Arguments mkEnv {blob}.
 Arguments e_func {blob}.
 Arguments e_args {blob}.
